@@ -814,3 +814,17 @@ def _unify_multiset(xs, ys, m, inv, is_var):
     for k, y in enumerate(ys):
         for m2, i2 in _unify(x, y, m, inv, is_var):
             yield from _unify_multiset(xs[1:], ys[:k] + ys[k + 1:], m2, i2, is_var)
+
+
+def under(t: Term, assumptions) -> Term:
+    """``t`` as it reads on a path that assumes ``assumptions``: conjuncts that are assumed drop out, a conjunct whose negation is assumed
+    makes a conjunction false (dually for disjunctions) - so ``a and b`` equals ``b`` where a was tested, ``False`` where not a was"""
+    known = set(assumptions)
+    if t in known:
+        return ('const', True)
+    if mk_not(t) in known:
+        return ('const', False)
+    if t[0] in ('and', 'or'):
+        parts = [under(x, known) for x in t[1]]
+        return mk_bool(t[0], parts) if not any(p == ('const', t[0] == 'or') for p in parts) else ('const', t[0] == 'or')
+    return t
